@@ -12,5 +12,7 @@ package coremain
 //@   nobody
 //@   ensures result != nil
 //@ func (m *Mosdns) GetPlugin
-//@   nobody
 //@   log GetPlugin
+//@   requires m != nil
+//@   ensures tag in m.plugins ==> result == m.plugins[tag]
+//@   ensures !(tag in m.plugins) ==> result == nil
